@@ -10,6 +10,7 @@ os.environ["DASHU_NO_PATH_PINNING"] = "1"
 from rules import facts
 
 ref = {}
+sigs = {}
 amb = set()
 facts.extract_many(facts.CONFIGS if isinstance(facts.CONFIGS, (list, tuple)) else list(facts.CONFIGS))
 for cfg in (facts.CONFIGS if isinstance(facts.CONFIGS, (list, tuple)) else list(facts.CONFIGS)):
@@ -21,7 +22,11 @@ for cfg in (facts.CONFIGS if isinstance(facts.CONFIGS, (list, tuple)) else list(
             if c in ref and ref[c] != f["p"]:
                 amb.add(c)
             ref.setdefault(c, f["p"])
+            if f.get("mir") and f.get("kind") != "Closure":
+                v = [facts.signature(f), facts.skeleton(f)]
+                if v not in sigs.setdefault(f["p"], []):
+                    sigs[f["p"]].append(v)
 for c in amb:
     ref.pop(c, None)
-json.dump(ref, open(os.path.join(VERIF, "tables", "paths.json"), "w"), indent=0, sort_keys=True)
+json.dump({"paths": ref, "sigs": sigs}, open(os.path.join(VERIF, "tables", "paths.json"), "w"), indent=0, sort_keys=True)
 print("frozen %d function identities (%d ambiguous dropped)" % (len(ref), len(amb)))
